@@ -142,7 +142,8 @@ def check(case):
         if g in K.NULLS:
             doc3['rows'][ri]['c'][k] = dict(doc3['rows'][ri]['c'][k], k='null')
         reported = (phys[ri], d['t']) in got_err
-        if d['kind'] == 'mutated' and not reported and d['typ'] in KERNLIKE:
+        structural = tok.category.name in ('EMPTY', 'BARLINES', 'CLEF', 'KEY_SIGNATURE', 'TIME_SIGNATURE', 'METER_SYMBOL', 'STRUCTURAL', 'BOUNDING_BOXES')
+        if d['kind'] == 'mutated' and not reported and (d['typ'] in KERNLIKE or structural):
             # the edited token was accepted: it may be a valid token (then the export is its normal form), but nothing
             # the cell contained may be lost silently
             lost = set(d['t']) - set(g) - ({'0', '1', '2', '3', '4', '5', '6', '7', '8', '9'} if d['t'].startswith('=') else set())
